@@ -411,7 +411,10 @@ func execHistory(se *session, w, h int, ops []shadow.Op, eo execOpts) *viol {
 				wideAt := func(j int) bool { return wideSince[j] || prev[j].Wide || exp[j].Wide }
 				nb := (x > 0 && touched[i-1] && wideAt(i-1)) || (x > 1 && touched[i-2] && (wideAt(i-2) || wideAt(i-1)))
 				trickCell := trickN >= 0 && (i == trickN || i == trickN+1 || (i == trickN-1 && exp[trickN].Cont))
-				if !touched[i] && !nb && !unlocked[i] && !trickCell && !exp[i].Cont {
+				// a cell whose displayed content differs from what the previous Show left (a chain of
+				// overlapping wide runes covered / uncovered further left) has to be written for C01
+				dispChanged := !reflect.DeepEqual(prev[i], exp[i])
+				if !touched[i] && !nb && !unlocked[i] && !trickCell && !exp[i].Cont && !dispChanged {
 					cat := "unchanged-cell-redrawn"
 					if m.C[i].R == 0 {
 						cat += ":nul-rune" // the application stored U+0000 (again) in this cell
